@@ -3,6 +3,7 @@ import QmiModel.Lemmas.C16Load
 import QmiModel.Lemmas.C16Round
 import QmiModel.Lemmas.C16Err
 import QmiModel.Lemmas.C16Reval
+import QmiModel.Lemmas.C16Check
 import QmiModel.Gen.CfgDefs
 /-!
 # C16 — configuration loads strictly and round-trips
@@ -369,6 +370,205 @@ theorem ctor_revalidation_noop (name : Str) (fs : List Field) (hw : wf (.struct 
   have hu : firstUnknown (fieldNames fs) items = .none :=
     (firstUnknown_none _ _).2 (by rw [hkeys]; exact fun k hk => hk)
   simp [construct, hc, hu]
+
+/-! ## 6b. The acceptance test `_check_config_struct_type`, and `config_struct_from_dict` as a whole -/
+
+/-- **check_accepts_iff_supported**: the acceptance test passes exactly the documented field types (scalars, `Any`,
+untyped `list`/`List`/`Tuple`/`dict`/`Dict`, `Optional[T]`, `List[T]`, `Dict[str, T]`, `Tuple[T, ...]`,
+`Tuple[T1, …]`, nested structures) — for every annotation tree and every path argument. -/
+theorem check_accepts_iff_supported (ρ : RawTy) (p : Path) : checkType ρ p = .ok () ↔ Supported ρ :=
+  ⟨supported_of_check ρ p, fun h => check_of_supported ρ h p⟩
+
+/-- what it rejects, it rejects with one of its three configuration errors, naming a position below its path -/
+theorem check_only_config_error (ρ : RawTy) (p : Path) (e : PyExc) (h : checkType ρ p = .error e) :
+    ∃ k r, e = .config k (p ++ r) ∧ (k = .badUnion ∨ k = .badKey ∨ k = .badType) := check_err ρ p e h
+
+/-- **accepted_type_is_handled**: every accepted type is one `_parse_config_value` really recognises — no position
+of it is the "unrecognised type" fall-through (`Ty.never`), so a type-mismatch error for an accepted structure is
+always about the *data*. -/
+theorem accepted_type_is_handled (ρ : RawTy) (p : Path) (h : checkType ρ p = .ok ()) (hi : allInit ρ = true) :
+    ∃ τ, elabTy ρ = some τ ∧ noNever τ = true := elab_of_supported ρ (supported_of_check ρ p h) hi
+
+/-- conversely the parser, fed a type the acceptance test would reject (the constructor does not run the test),
+still raises nothing but configuration errors -/
+theorem parseRaw_only_config_error (ρ : RawTy) (v : PV) (p : Path) (e : PyExc)
+    (h : parseRaw ρ v p = some (.error e)) : ∃ c q, e = .config c q := by
+  unfold parseRaw at h
+  cases hτ : elabTy ρ with
+  | none => simp [hτ] at h
+  | some τ => simp [hτ] at h; exact only_config_error τ v p e h
+
+-- the rejected classes, and what the parser makes of them
+example : checkType (.union [.int, .str]) [] = .error (.config .badUnion []) := rfl
+example : elabTy (.union [.int, .str, .noneType]) = some (.opt .str) := rfl          -- the last member wins
+example : checkType (.listOf (.dictOf .int .int)) [] = .error (.config .badKey [.elem]) := rfl
+example : checkType (.struct [67] [([102], .tupleFix [.int, .other], .none, true)]) [] =
+    .error (.config .badType [.field [102], .idx 1]) := rfl
+example : checkType .builtinTuple [] = .error (.config .badType []) ∧ elabTy .builtinTuple = some .tupleAny := ⟨rfl, rfl⟩
+example : elabTy .noneType = some (.opt .never) ∧ elabTy .other = some .never := ⟨rfl, rfl⟩
+-- a field with `init=False` is skipped by the test, whatever its type
+example : checkType (.struct [67] [([102], .other, .none, false)]) [] = .ok () := rfl
+
+/-- `config_struct_from_dict` with a class that is not a structure: `TypeError` (API misuse) -/
+theorem fromDictFull_not_a_struct (ρ : RawTy) (data : PV) (h : ∀ n fs, ρ ≠ .struct n fs) :
+    fromDictFull ρ data = some (.error .typeError) := by
+  cases ρ with
+  | struct n fs => exact absurd rfl (h n fs)
+  | _ => rfl
+
+/-- an unsupported structure is rejected before any data is looked at -/
+theorem fromDictFull_rejects_unsupported (n : Str) (fs : List RawField) (data : PV)
+    (h : ¬ Supported (.struct n fs)) :
+    ∃ k r, fromDictFull (.struct n fs) data = some (.error (.config k r)) ∧
+      (k = .badUnion ∨ k = .badKey ∨ k = .badType) := by
+  cases hc : checkType (.struct n fs) [] with
+  | ok u => cases u; exact absurd (supported_of_check _ _ hc) h
+  | error e =>
+    obtain ⟨k, r, he, hk⟩ := check_err _ _ e hc
+    exact ⟨k, [] ++ r, by simp only [fromDictFull, hc, he], hk⟩
+
+/-- **from_dict_is_parse**: for a supported structure and dict data, `config_struct_from_dict` is the recursive
+parser started at the empty path — so every theorem of sections 4 and 5 applies to the public entry point. -/
+theorem from_dict_is_parse (n : Str) (fs : List RawField) (kvs : List (Str × PV)) (τ : Ty)
+    (hs : Supported (.struct n fs)) (hτ : elabTy (.struct n fs) = some τ) :
+    fromDictFull (.struct n fs) (.dict kvs) = some (parseValue τ (.dict kvs) []) := by
+  have hc := check_of_supported _ hs []
+  simp only [elabTy] at hτ
+  cases hf : elabF fs with
+  | none => simp [hf] at hτ
+  | some fs' =>
+    simp [hf] at hτ; subst hτ
+    simp only [fromDictFull, hc, elabTy, hf, Option.map_some, parseTop, parseValue_struct_dict]
+
+/-- **toplevel_nondict_rejected**: data that is not a dict never yields a structure; what escapes is `TypeError`
+or `AttributeError` (the unguarded `f.name in data`, `data[f.name]`, `data.keys()`), or "missing value" when the
+`in` test happens to work (a `str`/`list` data) — the function's contract is `data: dict`. -/
+theorem toplevel_nondict_rejected (n : Str) (fs : List RawField) (data : PV) (τ : Ty)
+    (hs : Supported (.struct n fs)) (hτ : elabTy (.struct n fs) = some τ) (hd : ∀ kvs, data ≠ .dict kvs) :
+    ∃ e, fromDictFull (.struct n fs) data = some (.error e) ∧
+      (e = .typeError ∨ e = .attributeError ∨ ∃ f, e = .config .missing [.field f]) := by
+  have hc := check_of_supported _ hs []
+  simp only [elabTy] at hτ
+  cases hf : elabF fs with
+  | none => simp [hf] at hτ
+  | some fs' =>
+    have hdata : ∀ kvs, data ≠ .dict kvs := hd
+    cases ht : topFields fs' data with
+    | none =>
+      refine ⟨.attributeError, ?_, Or.inr (Or.inl rfl)⟩
+      cases data <;> first | exact absurd rfl (hdata _) | simp [fromDictFull, hc, elabTy, hf, parseTop, ht]
+    | some e =>
+      refine ⟨e, ?_, ?_⟩
+      · cases data <;> first | exact absurd rfl (hdata _) | simp [fromDictFull, hc, elabTy, hf, parseTop, ht]
+      · rcases topFields_kind fs' data e ht with h | ⟨f, h⟩
+        · exact Or.inl h
+        · exact Or.inr (Or.inr ⟨f, h⟩)
+
+/-! ## 6c. `create_config_from_file`: which file, what is loaded, which errors -/
+
+/-- the argument wins over `$QMI_CONFIG`; without either there is no file -/
+theorem chooseFile_spec (arg env : Option Str) :
+    chooseFile arg env = (match arg with | some f => some f | .none => env) := rfl
+
+/-- no file name anywhere: the default configuration `CfgQmi()` -/
+theorem createConfig_no_file (τ : Ty) (rf : Str → Option (List Nat)) (ab : Str → Str) (jl : List Nat → Option PV) :
+    createConfig τ rf ab jl .none .none = construct τ [] := rfl
+
+/-- … which for the shipped `CfgQmi` is the structure the empty document loads to -/
+theorem createConfig_no_file_shipped (rf : Str → Option (List Nat)) (ab : Str → Str) (jl : List Nat → Option PV) :
+    createConfig Gen.CfgQmi rf ab jl .none .none = fromDict Gen.CfgQmi (.dict []) := rfl
+
+/-- the environment variable is used only when no argument is given -/
+theorem createConfig_arg_wins (τ : Ty) (rf : Str → Option (List Nat)) (ab : Str → Str) (jl : List Nat → Option PV)
+    (f : Str) (env : Option Str) :
+    createConfig τ rf ab jl (some f) env = createConfig τ rf ab jl .none (some f) := rfl
+
+/-- **createConfig_errors**: with a file name, the only exceptions are `OSError` (the file cannot be read), `ValueError`
+(not JSON / duplicate key) and configuration errors -/
+theorem createConfig_errors (τ : Ty) (rf : Str → Option (List Nat)) (ab : Str → Str) (jl : List Nat → Option PV)
+    (f : Str) (env : Option Str) (e : PyExc) (h : createConfig τ rf ab jl (some f) env = .error e) :
+    e = .osError ∨ e = .valueError ∨ ∃ c q, e = .config c q := by
+  simp only [createConfig, chooseFile] at h
+  cases hr : rf f with
+  | none => simp [hr] at h; exact Or.inl h.symm
+  | some text =>
+    simp only [hr] at h
+    cases hl : loadString jl text with
+    | error e' =>
+      simp [hl] at h; subst h
+      unfold loadString at hl
+      cases hj : jl (stripComments text) with
+      | none => simp [hj] at hl; exact Or.inr (Or.inl hl.symm)
+      | some raw =>
+        simp only [hj, loadTree] at hl
+        split at hl
+        · cases raw <;> simp at hl <;> exact Or.inr (Or.inr ⟨_, _, hl.symm⟩)
+        · simp at hl; exact Or.inr (Or.inl hl.symm)
+    | ok cfg =>
+      simp only [hl] at h
+      cases cfg with
+      | dict kvs => exact Or.inr (Or.inr (only_config_error τ _ [] e h))
+      | _ => simp at h; exact Or.inr (Or.inr ⟨_, _, h.symm⟩)
+
+/-- **createConfig_ok**: a loaded configuration is the document's data with `config_file` set to the absolute path of
+the chosen file (overriding a `config_file` key of the document), converted as the specification `Admits` says -/
+theorem createConfig_ok (τ : Ty) (rf : Str → Option (List Nat)) (ab : Str → Str) (jl : List Nat → Option PV)
+    (f : Str) (env : Option Str) (v : PV) (h : createConfig τ rf ab jl (some f) env = .ok v) :
+    ∃ text kvs, rf f = some text ∧ loadString jl text = .ok (.dict kvs) ∧
+      assoc configFileKey (setKey configFileKey (.str (ab f)) kvs) = some (.str (ab f)) ∧
+      Admits τ (.dict (setKey configFileKey (.str (ab f)) kvs)) v := by
+  simp only [createConfig, chooseFile] at h
+  cases hr : rf f with
+  | none => simp [hr] at h
+  | some text =>
+    simp only [hr] at h
+    cases hl : loadString jl text with
+    | error e' => simp [hl] at h
+    | ok cfg =>
+      simp only [hl] at h
+      cases cfg with
+      | dict kvs => exact ⟨text, kvs, rfl, hl, assoc_setKey_same _ _ _, admits_of_ok τ _ [] v h⟩
+      | _ => simp at h
+
+/-- every other key of the document reaches the parser unchanged -/
+theorem setKey_keeps_other_keys (k k' : Str) (v : PV) (kvs : List (Str × PV)) (hne : k' ≠ k) :
+    assoc k' (setKey k v kvs) = assoc k' kvs := assoc_setKey_other k k' v kvs hne
+
+/-! ## 6d. Line terminators -/
+
+/-- **strip_newline_style_irrelevant**: `\r`, `\n` (and therefore `\r\n`) are interchangeable line terminators: two
+texts that differ only in which of the two characters ends a line strip to the same text -/
+theorem strip_newline_style_irrelevant (s s' : List Nat) (h : nlNorm s = nlNorm s') :
+    stripComments s = stripComments s' := by
+  unfold stripComments
+  rw [← splitLines_nlNorm s, ← splitLines_nlNorm s', h]
+
+theorem load_newline_style_irrelevant (jl : List Nat → Option PV) (s s' : List Nat) (h : nlNorm s = nlNorm s') :
+    loadString jl s = loadString jl s' := by
+  unfold loadString; rw [strip_newline_style_irrelevant s s' h]
+
+/-- what `dump_config_string` produces contains no carriage return: written in text mode and read back with
+universal newlines (any platform), the file gives the same text again -/
+theorem dump_has_no_cr (lvl : Nat) (j : PV) (h : clean j = true) : ∀ c ∈ joinLines (render lvl j), c ≠ 13 := by
+  have hg := render_good lvl j h
+  have key : ∀ (ls : List (List Nat)), (∀ l ∈ ls, NoNL l) → ∀ c ∈ joinLines ls, c ≠ 13 := by
+    intro ls
+    induction ls with
+    | nil => intro _ c hc; simp [joinLines] at hc
+    | cons l ls ih =>
+      intro hl c hc
+      cases ls with
+      | nil => simp only [joinLines] at hc; exact (hl l (by simp) c hc).2
+      | cons l2 ls2 =>
+        simp only [joinLines, List.mem_append, List.mem_cons] at hc
+        rcases hc with hc | rfl | hc
+        · exact (hl l (by simp) c hc).2
+        · decide
+        · exact ih (fun x hx => hl x (by simp [hx])) c hc
+  exact key _ (fun l hl => (hg l hl).2)
+
+-- non-vacuity: `{#c\r}` and `{#c\n}`
+example : nlNorm [123, 35, 99, 13, 125] = nlNorm [123, 35, 99, 10, 125] := by decide
 
 /-! ## 7. The shipped configuration structures (regenerated from `config_defs.py` on every run) -/
 
